@@ -76,6 +76,8 @@ typedef struct {
                      // twin get identical arguments from the same seed, so their outputs must be bit-identical)
 } opdef_t;
 int op_find(const char* name);
+// catalogue entry or harness-side definition ("definition:..." twins); 0 when unknown
+const opdef_t* op_lookup(const char* name);
 // hash of every byte of the shared objects of an environment whose layout is known (module structs, twiddle
 // and omega tables, NTT metadata, conversion tables): must never change after creation
 uint64_t env_hash(const env_t* e, uint64_t* bytes);
